@@ -223,6 +223,20 @@ def check_C03(ctx):
         for m in modes:
             cases.append(dict(files={"food.yaml": b"", "log.yaml": log.encode()}, cmd="bal", **m, **NOCOLOR)); meta.append((None, log))
         ctx.nontriv(log)
+    # path segments with characters that mean something to fmt, text/template or the column layout (a name is data, never a format)
+    oddseg = ["100%", "3.5%", "%s", "%d", "%v%v", "50%off", "a b", "a.b", "a,b", "é", "x%", "%", "{{.}}", "a\\b", "$1", "%!s(MISSING)", "%%"]
+    for k in range(ctx.scale(40, 600)):
+        names = []
+        for _ in range(r.randint(2, 6)):
+            names.append("/".join(r.choice(oddseg + ["a", "b", "milk"]) for _ in range(r.randint(1, 4))))
+        if r.random() < 0.5: names.append(names[0] + "/" + r.choice(oddseg))      # a sole child below a logged name
+        log = "2021/01/01:\n" + "".join("  %s: %s\n" % (nm, r.choice(["1", "2", "0.5", "-3"])) for nm in names)
+        el = r.choice(oddseg)
+        bookb = ("%s:\n  %s: 2\n  kcal: 1\n" % (names[0], el)).encode()
+        for m in modes:
+            cases.append(dict(files={"food.yaml": b"", "log.yaml": log.encode()}, cmd="bal", **m, **NOCOLOR)); meta.append((None, log))
+            cases.append(dict(files={"food.yaml": bookb, "log.yaml": log.encode()}, cmd="bal", single_element=el, **m, **NOCOLOR)); meta.append((None, log))
+        ctx.nontriv(log)
     ctx.notes["exhaustive_path_sets"] = dict(segments="ab", max_depth=3, max_paths=ctx.scale(3, 4), sets=len(sets), every_second_3_set_only=(ctx.tier == "quick"))
     # random: deeper, shared prefixes, forks below chains, empty segments, single element with a book
     for k in range(ctx.scale(700, 10000)):
@@ -540,6 +554,21 @@ def check_C06(ctx):
                     c1 = dict(files=fg, cmd="summary", arg=arg.encode(), f_today=gd.strftime("%Y/%m/%d"), tz=(zone, off), **NOCOLOR)
                     cases.append(c1); pairs.append((len(cases) - 1, None, (sel, gds)))
                     ctx.tally("tz", zone)
+        # days and bounds far from the present: years 1 ... 9999 (instants outside 1678 .. 2262 do not fit a 64-bit nanosecond counter)
+        if ln < ctx.scale(2, 10):
+            far = [(1, 1, 1), (1500, 6, 1), (1677, 9, 21), (1677, 9, 22), (1969, 12, 31), (2262, 4, 11), (2262, 4, 12), (2300, 1, 1), (9999, 12, 31), (2021, 1, 20), (2021, 1, 22)]
+            fds = r.sample(far, 6) + [(2021, 1, 21)]
+            fitems = window_log(r, fds)
+            for it_i, it in enumerate(fitems):
+                if it[0] == "heading" and (it_i + 1 == len(fitems) or fitems[it_i + 1][0] == "heading"): fitems.insert(it_i + 1, ("entry", "bread", "1"))
+            ff = {"food.yaml": book, "log.yaml": gen.render_items(r, fitems, crlf=False, final_newline=True)}
+            for (bb, ee) in [((2021, 1, 11), None), (None, (2021, 1, 31)), ((1600, 1, 1), (2400, 1, 1)), ((1, 1, 1), (1677, 9, 21)), ((2262, 4, 12), None), (None, (1500, 6, 1)), ((2021, 1, 21), (9999, 12, 31))]:
+                keep = lambda i, bb=bb, ee=ee: (bb is None or fds[i] >= bb) and (ee is None or fds[i] <= ee)
+                fdel = {"food.yaml": book, "log.yaml": gen.render_items(r, delete_days(fitems, keep), crlf=False, final_newline=True)}
+                cmd = r.choice(PERIOD_CMDS)
+                kw = dict(g_begin="%04d/%02d/%02d" % bb if bb else None, g_end="%04d/%02d/%02d" % ee if ee else None)
+                cases.append(period_case(r, ff, cmd, **kw)); cases.append(period_case(r, fdel, cmd))
+                pairs.append((len(cases) - 2, len(cases) - 1, "period %s..%s %s (years far from the present)" % (bb, ee, cmd)))
         for d in win:
             for tz in tzs:
                 for arg, off in [(d.strftime("%Y/%m/%d"), 0), ("today", 0), ("yesterday", -1)]:
@@ -596,6 +625,10 @@ def check_C07(ctx):
             for it_i, it in enumerate(list(w["log"])):
                 if it[0] == "heading":
                     w["log"].insert(it_i + 1, ("entry", g, gen.number(r, True))); w["log"].insert(it_i + 2, ("entry", g + "/sub", gen.number(r, True))); break
+        if k % 4 == 1:
+            # amounts with more significant digits than single precision holds (exact in binary64: integers and quarters)
+            for it_i, it in enumerate(list(w["log"])):
+                if it[0] == "entry" and r.random() < 0.5: w["log"][it_i] = ("entry", it[1], r.choice(["16777217", "1234567.25", "300000.75", "-16777219", "33554433.5", "99999999"]))
         f = files_of(r, w)
         days = [h for h, _ in log_days(w)]
         day = r.choice(days) if days else "2021/01/20"
@@ -1478,7 +1511,8 @@ def check_C17(ctx):
     try:
         for path, content in small.items(): open(os.path.join(d0, path), "wb").write(content)
         open(os.path.join(d0, "bad.yaml"), "wb").write(bad)
-        for c in forms(small):
+        gens = [dict(files=small, cmd="gen", raw_argv=["gen", "man"]), dict(files=small, cmd="gen", raw_argv=["gen", "markdown"])]      # outside the model: library output
+        for c in forms(small) + gens:
             argv, env = run.argv_env(c)
             for sinkname in ("/dev/full", "closed-pipe"):
                 full = subprocess.run([ctx.impl["hr"]] + argv, cwd=d0, env=dict(env, PATH="/usr/bin:/bin", HOME=d0), stdout=subprocess.PIPE, stderr=subprocess.PIPE, timeout=20)
@@ -1498,7 +1532,7 @@ def check_C17(ctx):
     return dict(rule="every command form (23) on small worlds with the report written to a sink that accepts k bytes and then fails, for EVERY k in 0..len+1 (first world; a stride of 7 plus "
                 "the boundary on the others in the quick tier), a 60-day log whose reports exceed bufio's 4096-byte buffer and a world whose names make single lines longer than that buffer (k around 4096, 8192 and the end, plus random k); in-process with the "
                 "production command wiring; bytes accepted and status compared with the extracted Coq model; on the implementation alone: k < length of the complete report => non-zero "
-                "status, k >= length => identical to the unlimited run, accepted bytes are a prefix of the complete report; plus /dev/full and a closed pipe on the real binary. "
+                "status, k >= length => identical to the unlimited run, accepted bytes are a prefix of the complete report; plus /dev/full and a closed pipe on the real binary (there also gen man / gen markdown). "
                 "Non-trivial = every world, distinct by file bytes (each stands for all its (command, k) pairs)", extra=dict(exhaustive_offsets=True))
 
 # ---------------------------------------------------------------------------
